@@ -962,6 +962,11 @@ class Cov(Reduction):
     reduction_aggregate = staticmethod(_cov_corr_agg)
     corr = False
 
+    def _simplify_up(self, parent, dependents):
+        # Every column contributes a row to each output column, so selected
+        # output columns do not correspond to a subset of the input columns
+        return
+
     @property
     def chunk_kwargs(self):
         return {"corr": self.corr}
